@@ -44,6 +44,13 @@ fn shapes(n: usize, kind: usize, bounded: Option<usize>) -> Vec<(String, String)
         ("reduce".into(), format!("f = x => {}{}\noutput r = f(0)", stop("x"), nest("reduce([x + 1], (a, y) => f(y), 0)", kind, n))),
         ("where".into(), format!("f = x => {}{}\noutput r = f(0)", stop("x"), nest("len([x + 1] where (y => f(y) >= 0)) + x", kind, n))),
         ("closure".into(), format!("mk = k => (x => {}{})\nh = mk(1)\nf = x => h(x)\noutput r = f(0)", stop("x"), nest("f(x + k)", kind, n))),
+        // cycles that go through functions without a name: self application, a function passed to
+        // itself, a fixed-point combinator, functions stored in a record field / a list
+        ("selfapp".into(), { let w = format!("((s, x) => {}{})", stop("x"), nest("s(s, x + 1)", kind, n)); format!("output r = {}({}, 0)", w, w) }),
+        ("param".into(), format!("run = (g, x) => g(g, x)\noutput r = run((g, x) => {}{}, 0)", stop("x"), nest("g(g, x + 1)", kind, n))),
+        ("fixpoint".into(), format!("fix = g => (x => g(v => x(x)(v)))(x => g(v => x(x)(v)))\noutput r = fix(self => (x => {}{}))(0)", stop("x"), nest("self(x + 1)", kind, n))),
+        ("field".into(), format!("obj = {{step: x => {}{}}}\noutput r = obj.step(0)", stop("x"), nest("obj.step(x + 1)", kind, n))),
+        ("listfn".into(), format!("fs = [x => {}{}]\noutput r = fs[0](0)", stop("x"), nest("fs[0](x + 1)", kind, n))),
     ]
 }
 
@@ -65,6 +72,9 @@ pub fn run(ctx: &Ctx, rep: &mut Report) {
     let mut model = Model::spawn(&ctx.model_path);
     let nestings: Vec<usize> = if ctx.thorough() { vec![0, 1, 2, 3, 4, 6, 8, 12, 16, 24, 32] } else { vec![0, 2, 8, 32] };
     let mut k = 0usize;
+    // shapes whose unbounded form did not end in a depth error on the binary are not evaluated
+    // in-process afterwards (nothing could stop them there)
+    let mut misbehaved: Vec<String> = vec![];
     for &n in nestings.iter() {
         let kinds: Vec<usize> = if ctx.thorough() { (0..8).collect() } else { vec![rng.below(8), rng.below(8)] };
         for kind in kinds {
@@ -74,6 +84,7 @@ pub fn run(ctx: &Ctx, rep: &mut Report) {
                 let (code, out, err) = run_bin(&ctx.blots_release_bin, &src, &format!("{}", k));
                 let reported = out.contains("maximum call depth") || err.contains("maximum call depth");
                 if code != Some(1) || !reported {
+                    if !misbehaved.contains(&name) { misbehaved.push(name.clone()); }
                     rep.finding("oracle", "runaway-recursion-not-a-depth-error", &src,
                         &format!("exit {:?} stdout {:?} stderr {:?}", code, out.chars().take(160).collect::<String>(), err.chars().take(200).collect::<String>()), "c18.runaway");
                 }
@@ -84,7 +95,7 @@ pub fn run(ctx: &Ctx, rep: &mut Report) {
                 for (name, src) in shapes(n.min(8), kind, Some(d)) {
                     k += 1;
                     // callbacks of built-ins cost three call levels per recursion step
-                    if name == "where" || name == "reduce" || (name == "map" && d > 200) {
+                    if name == "where" || name == "reduce" || ((name == "map" || name == "fixpoint") && d > 200) {
                         continue;
                     }
                     rep.case(&format!("bounded {} depth={} nesting={} kind={}", name, d, n, kind), true);
@@ -100,6 +111,10 @@ pub fn run(ctx: &Ctx, rep: &mut Report) {
     }
     // correspondence on the plain shapes (the model's own recursion is bounded by its fuel)
     for (name, src) in shapes(0, 0, None).into_iter().chain(shapes(1, 0, Some(50)).into_iter()) {
+        if misbehaved.contains(&name) {
+            rep.count("model-correspondence-skipped");
+            continue;
+        }
         let stmts = match statements(&src) { Ok(s) => s, Err(_) => continue };
         let real = std::thread::Builder::new().stack_size(1 << 30).spawn({
             let stmts = stmts.clone();
